@@ -163,14 +163,14 @@ fn main() {
     let mut reports: Vec<Report> = vec![];
     let mut tool_errors: Vec<String> = vec![];
     for (k, scn) in scns.iter().enumerate() {
-        if std::env::var("SYMX_STOP_ON_VIOLATION").is_ok() && reports.iter().any(|r| !r.findings.is_empty()) {
+        if std::env::var("SYMX_STOP_ON_VIOLATION").is_ok() && reports.iter().any(|r| r.findings.iter().any(|f| !known.iter().any(|k| k.property == prop && k.kind == f.kind))) {
             break;
         }
         // remaining budget split evenly over the remaining scenarios
         let left = budget.saturating_sub(start.elapsed().as_secs());
         // a scenario may use up to three times its fair share of what is left (at least 20 s)
         let share = (3 * left / (n_scn - k as u64)).max(20).min(left.max(5));
-        let cfg = Config { threads, max_paths: u64::MAX, deadline: Duration::from_secs(share), seed, cross_every: if tier == Tier::Quick { 50 } else { 10 }, split_target: threads * 12 };
+        let cfg = Config { threads, max_paths: u64::MAX, deadline: Duration::from_secs(share), seed, cross_every: if tier == Tier::Quick { 50 } else { 10 }, split_target: threads * 12, known_kinds: known.iter().filter(|k| k.property == prop).map(|k| k.kind.clone()).collect() };
         let r = std::panic::catch_unwind(std::panic::AssertUnwindSafe(|| exec::explore(&**scn, &cfg)));
         match r {
             Ok(rep) => {
